@@ -664,6 +664,7 @@ Proof.
     replace (grants (if permanent then with_qauto s1 _ else s1)) with (grants s1) by (destruct permanent; reflexivity).
     rewrite Hgr. exact HU.
   - destruct (is_nil froms); [discriminate|]. injection H as <-. exact HU.
+  - injection H as <-. unfold KeyUniq. cbn [grants with_grants]. apply filter_map_NoDup. exact HU.
 Qed.
 
 Lemma run_keyuniq ops : forall s, Inv s -> KeyUniq (grants s) -> KeyUniq (grants (run s ops)).
